@@ -28,7 +28,18 @@ pub enum V {
     Nat(Vec<BigUint>),
 }
 
+/// Hex form; values of more than 100 hex digits are abbreviated (head, tail, bit length and a hash
+/// of the full value keep the text unique).
 pub fn hexs(x: &BigUint) -> String {
+    let h = x.to_str_radix(16);
+    if h.len() > 100 {
+        format!("0x{}..{}(bits={},fnv={:08x})", &h[..8], &h[h.len() - 8..], x.bits(), vcore::fnv(&h) as u32)
+    } else {
+        format!("0x{h}")
+    }
+}
+
+pub fn hex_full(x: &BigUint) -> String {
     format!("0x{}", x.to_str_radix(16))
 }
 
